@@ -26,7 +26,9 @@ GEOMS = ['-1', '-1 3', '(-1 : -6) 3']
 OV_KEYS = ['mat', 'rho', 'u', 'fill', 'trcl', '*trcl', 'imp']
 OV_VALUES = {
     'mat': ['2', '3'], 'rho': ['-3.5', '-0.8'], 'u': ['7', '8'], 'fill': ['6', '5', '6 (0 -1 0)', '6 (9)'],
-    'trcl': ['(5 0 0)', '(0 5 1 0 1 0 -1 0 0 0 0 1)'], '*trcl': ['(0 -5 0)', '(4 4 0 90 0 90 180 90 90 90 90 0)'],
+    # (an identity TRCL in the BUT list replaces an inherited TRCL like any other value)
+    'trcl': ['(5 0 0)', '(0 5 1 0 1 0 -1 0 0 0 0 1)', '(0 0 0)', '(0 0 0 1 0 0 0 1 0 0 0 1)', '10'],
+    '*trcl': ['(0 -5 0)', '(4 4 0 90 0 90 180 90 90 90 90 0)', '(0 0 0 0 90 90 90 0 90 90 90 0)'],
     'imp': ['n=0', 'n=2', 'n,p=0', 'n=0 p=0', 'p,n=0', 'p=0'],
 }
 
@@ -178,7 +180,31 @@ def build(chain_len):
         st.explicit_cells = b_cards + fixed
         st.surfs = ['1 so 2', '2 so 20', '3 px 0.25', '4 py -0.5', '5 s 0 0 7 1.5', '6 s 1.5 0 0 1.5',
                     '7 s 0 0 -7 1.5']
-        st.data = ['m1 13027 1', 'm2 26056 1', 'm3 1001 2 8016 1', 'tr9 0.5 -0.5 0 0 1 0 -1 0 0 0 0 1']
+        st.data = ['m1 13027 1', 'm2 26056 1', 'm3 1001 2 8016 1', 'tr9 0.5 -0.5 0 0 1 0 -1 0 0 0 0 1', 'tr10 0 0 0']
+        # importances on the cell cards, or all of them on one IMP:N data card (a LIKE cell then takes the entry
+        # at its own position)
+        if ch.choose('importances', ['cell-cards', 'data-card']) == 'data-card':
+            import re as _re
+            pat = _re.compile(r'\s+imp:([a-z,]+)=(\S+)')
+            vals = []
+            for card in st.explicit_cells:
+                found = pat.findall(card)
+                if len(found) != 1 or found[0][0] != 'n':
+                    ch.reject('importances not of the single imp:n=v form')
+                vals.append(found[0][1])
+            if any('imp:' in lk.split(' but ')[1] for lk, _ in likes):
+                ch.reject('an IMP override needs cell-card importances')
+            st.cells = [pat.sub('', c) for c in st.cells]
+            st.explicit_cells = [pat.sub('', c) for c in st.explicit_cells]
+            # the entry of one LIKE cell (or of the base cell) may be 0 while its neighbours' are not: a wrong
+            # position on the card then shows as a cell too many or too few
+            zero = ch.choose('zero-entry', ['none', 'last-like', 'base', 'first-like'])
+            target = {'none': None, 'last-like': likes[-1][1].num, 'base': base.num, 'first-like': likes[0][1].num}[zero]
+            if target is not None:
+                k = [i for i, c in enumerate(st.explicit_cells) if c.split()[0] == str(target)][0]
+                vals[k] = '0'
+                # the rest-of-the-world cell refers to the omitted cell with #n: still well defined
+            st.data.append('imp:n ' + ' '.join(vals))
         st.noverrides = sum(len(lk.split(' but ')[1].split()) for lk, _ in likes)
         return st
     return bld
